@@ -4,7 +4,7 @@ import json
 import os
 
 from harness import coreir as IR
-from harness.common import CoqFailure, coq_list, coq_opt, coqc_file, parse_nat_list, run_impl
+from harness.common import CoqFailure, coq_list, coq_opt, coqc_file, coqc_many, parse_nat_list, run_impl
 
 HEADER = ('From Coq Require Import List ZArith String.\n'
           'From BT Require Import Gen.ClassTable Gen.SignSets Core.PyVal Core.Expr Core.Hint Core.Corr.\n'
@@ -65,15 +65,17 @@ def evaluate(ctx, tag, cases, observed):
                 continue
             flat.append(coq_case(case, draw, o, res.get('sat')))
             index.append((ci, di))
-    shard = 400
+    shard = 200
+    paths = []
     for lo in range(0, len(flat), shard):
         text = HEADER + 'Definition cases : list case := %s.\n' % coq_list(['\n  ' + c for c in flat[lo:lo + shard]]) + \
             'Eval vm_compute in (failing %s cases).\n' % coq_list(['c_' + c for c in IR.SPIED])
         path = os.path.join(ctx.workdir, f'core_{tag}_{lo}.v')
         with open(path, 'w') as f:
             f.write(text)
-        out = coqc_file(path)
-        bad += [index[lo + j] for j in parse_nat_list(out)]
+        paths.append(path)
+    for si, out in enumerate(coqc_many(paths, jobs=10)):
+        bad += [index[si * shard + j] for j in parse_nat_list(out)]
     return sorted(bad)
 
 
